@@ -14,7 +14,8 @@ Definition mp_of (q : quad) : mparams :=
 Inductive meta_obs :=
 | MMut (idx : N) (expl : bool) (inp : quad) (outs : list quad)
 | MSel (idx : N) (pbits : Z) (n : nat) (counts : list N)
-| MBench (idx : N) (prob : nat) (nc : N) (f0 fbest : Z).
+| MBench (idx : N) (prob : nat) (nc : N) (f0 fbest : Z)
+| MInproc (idx : N) (nc budget peak started : N) (ok : bool).
 
 (** ** meta_adapt: what [mutate] can return for SOME factors in [floor, ceil] (necessary
     condition: multiplication and [min] are monotone, the input is non-negative) *)
@@ -97,6 +98,11 @@ Definition judge_meta (o : meta_obs) : string :=
   | MSel idx pbits n counts =>
       "META idx=" ++ N2s idx ++ " acc=" ++ (if sel_acc pbits n counts then "ok" else "rej/selection") ++
       " C14=1 C15=1 C17=" ++ b2s (sel_mon pbits n counts) ++ " END"
+  | MInproc idx nc budget peak started ok =>
+      (* C05, threaded in-process evaluation: never more than nc at once, and nc are reached
+         (the budget is a multiple of nc, so every wave can fill); exactly the budget is started *)
+      "META idx=" ++ N2s idx ++ " acc=ok C14=1 C15=" ++ b2s ok ++ " C17=1 C05=" ++
+      b2s (N.leb peak nc && N.eqb peak (N.min nc budget) && N.eqb started budget && ok) ++ " END"
   | MBench idx prob nc f0 fb =>
       "META idx=" ++ N2s idx ++ " acc=ok C14=1 C15=" ++ b2s (negb (fnan (of_bits fb))) ++
       " C17=" ++ b2s (bench_ok prob (of_bits f0) (of_bits fb)) ++ " END"
